@@ -7,3 +7,5 @@ import Calc.Props.C05
 #print axioms Calc.Props.C05.C05_spellings_partial
 #print axioms Calc.Props.C05.C05_no_undocumented_spelling
 #print axioms Calc.Props.C05.C05_yard_counterexample
+#print axioms Calc.Props.C05.C05_bit_family_exactly_as_known
+#print axioms Calc.Props.C05.C05_yard_exactly_as_known
